@@ -331,3 +331,37 @@ def all_axis_names(exprs):
             if leaf[0] == "ax" and leaf[1] not in names:
                 names.append(leaf[1])
     return names
+
+
+def el_items(items, in_br=False):
+    """The elementary signature of an (expanded) expression: what is left when everything outside brackets is dropped
+    (einx_from_namedtensor._to_el_expr): bracket contents stay, a flattened axis keeps its bracketed part."""
+    out = []
+    for it in items:
+        t = it[0]
+        if t in ("ax", "num"):
+            if in_br:
+                out.append(it)
+        elif t == "br":
+            out.extend(el_items(it[1], True))
+        elif t == "flat":
+            inner = el_items(it[1], in_br)
+            if in_br or inner:
+                out.append(["flat", inner])
+        elif t == "ell":
+            out.extend(el_items(it[3], in_br))
+        elif t == "cat":
+            if in_br:
+                out.append(it)
+    return out
+
+
+def el_shape(expr, env):
+    """Shape of the sub-tensor an elementary (vmapped) function receives / returns for this expression."""
+    return shape_of(el_items(expand(expr)), env)
+
+
+def br_shape(expr, env):
+    """One dimension per bracketed leaf axis, in order of appearance (einx hands user functions decomposed sub-tensors:
+    axis compositions are undone before the elementary operation is called)."""
+    return tuple((env[l[1]] if l[0] == "ax" else l[1]) for l, b in walk_leaves(expand(expr)) if b)
